@@ -197,6 +197,10 @@ def run(ctx):
                 for force in (0, 1):
                     for running in ((0, 1) if not ctx.quick else (1,)):
                         cases.append((gauge, yt, 0, 0, 0, 0, pset, force, running, pset % 2))
+        # C flags are ints: every non-zero value (negative, > 1, high bits only) means "true", as in C
+        for force, running in [(-1, 1), (2, 1), (0, -1), (0, 2), (0, 256), (1, -2147483648), (1073741824, 1)]:
+            for yt in (2, 5):
+                cases.append((gauge, yt, 0, 0, 0, 0, 0, force, running, 0))
         # boundary values of the validated inputs (psets 10..24, see fill_mass / fill_gauge in the harness)
         for pset in (range(10, 25) if gauge == 0 else (16, 17)):
             for yt in (2, 5):
